@@ -1,0 +1,15 @@
+//go:build verif
+
+package premium
+
+// Verification hooks (add-only, compiled only with -tags verif): expose the
+// unexported constants of this package so that they can be dumped.
+
+// VerifPremiumRateParts is the divisor used by PPM.Compute.
+const VerifPremiumRateParts int64 = premiumRateParts
+
+// VerifBucketName is the bbolt bucket holding the premium rates.
+const VerifBucketName = bucketName
+
+// VerifDefaultPeerID is the pseudo peer id under which the global rate is stored.
+const VerifDefaultPeerID = defaultPeerID
